@@ -32,7 +32,9 @@ def gen_program(rng):
     sites = 0
     for _ in range(rng.randrange(4, 10)):
         k = rng.random()
-        if k < 0.4:
+        if k < 0.15:
+            s.append(rng.choice([f" add dat{rng.randrange(nd)}@GOTPCREL(%rip), %rax", f" push fn{rng.randrange(nf)}@GOTPCREL(%rip)\n pop %rcx", f" cmp dat{rng.randrange(nd)}@GOTPCREL(%rip), %rdx"]))
+        elif k < 0.4:
             s.append(f" call fn{rng.randrange(nf)}")
         elif k < 0.7:
             s.append(f" lea dat{rng.randrange(nd)}+{8 * rng.randrange(3)}(%rip), %rax")
@@ -117,7 +119,7 @@ def run(chk, replay=None):
                         sym = osyms[rr["sym"]]
                         if sym["name"] in bsyms:
                             rels.append((tsec["name"], start["name"], rr, sym["name"]))
-                cands = [x for x in rels if x[2]["type"] in (2, 4) or (kind == "static" and x[2]["type"] in (1, 10, 11))]
+                cands = [x for x in rels if x[2]["type"] in (2, 4, 9, 41, 42) or (kind == "static" and x[2]["type"] in (1, 10, 11))]
                 # PIE: a data pointer lives in the addend of its R_X86_64_RELATIVE relocation
                 if kind == "pie":
                     ptrs = [x for x in rels if x[2]["type"] == 1]
@@ -160,11 +162,12 @@ def run(chk, replay=None):
                         continue
                     width = 8 if rr["type"] == 1 else 4
                     old = int.from_bytes(eb.b[off:off + width], "little", signed=rr["type"] != 1)
-                    pcrel = rr["type"] in (2, 4)
+                    pcrel = rr["type"] in (2, 4, 9, 41, 42)
+                    isgot = rr["type"] in (9, 41, 42)
                     old_target = old + (place if pcrel else 0) - rr["addend"]
                     # the new target: another symbol of the same family, or the same one a few bytes off
                     fam = [n for n in base_syms if n[:2] == symname[:2] and n != symname and not n.startswith(("tab", "rel"))]
-                    new_target = bsyms[r.choice(fam)] if fam and r.random() < 0.7 else old_target + r.choice([1, 2, 8, -1, 16])
+                    new_target = bsyms[r.choice(fam)] if fam and r.random() < 0.7 and not isgot else old_target + r.choice([1, 2, 4, 8, -1, -8, 16])
                     if new_target == old_target:
                         continue
                     new = new_target + rr["addend"] - (place if pcrel else 0)
@@ -179,7 +182,7 @@ def run(chk, replay=None):
                     shutil.copy(f"{d}/bin.layout", f"{d}/bad.layout")
                     rc, out = sh(f"cd {d} && {ldiff} --wild-defaults --colour never --ref bin bad", timeout=60)
                     stats["corruptions"] += 1
-                    tname = {1: "R_X86_64_64", 2: "R_X86_64_PC32", 4: "R_X86_64_PLT32", 10: "R_X86_64_32", 11: "R_X86_64_32S"}[rr["type"]]
+                    tname = {1: "R_X86_64_64", 2: "R_X86_64_PC32", 4: "R_X86_64_PLT32", 9: "R_X86_64_GOTPCREL", 10: "R_X86_64_32", 11: "R_X86_64_32S", 41: "R_X86_64_GOTPCRELX", 42: "R_X86_64_REX_GOTPCRELX"}[rr["type"]]
                     stats["by_type"][tname] = stats["by_type"].get(tname, 0) + 1
                     rep2 = dict(rep, section=secname, offset=rr["offset"], type=tname, symbol=symname, old_target=hex(old_target), new_target=hex(new_target))
                     blocks = [bk for bk in re.split(r"(?m)^(?=rel\.)", out) if bk.startswith("rel.")]
@@ -206,7 +209,7 @@ def run(chk, replay=None):
                         pl = bsyms[st] + r2["offset"]
                         o2 = eb.vaddr_to_off(pl)
                         w2 = 8 if r2["type"] == 1 else 4
-                        pc2 = r2["type"] in (2, 4)
+                        pc2 = r2["type"] in (2, 4, 9, 41, 42)
                         v_ref = int.from_bytes(eb.b[o2:o2 + w2], "little", signed=r2["type"] != 1) + (pl if pc2 else 0) - r2["addend"]
                         v_tst = int.from_bytes(b[o2:o2 + w2], "little", signed=r2["type"] != 1) + (pl if pc2 else 0) - r2["addend"]
                         ptsr.append(v_ref); ptst.append(v_tst); sites.append((si, symlist.index(sy)))
